@@ -196,7 +196,7 @@ def h_run_mapping_reduced(ctx, case):
     kind = ctx.choice('reduction', 4)   # drop class, drop subclass, flatten, unknown
     # marker table: each non-root entry kept, emptied or removed
     table = {}
-    for k, v in ST.MARKERS.items():
+    for k, v in inp.marker_table.items():
         if k == 'None' or (k in ('class/clsA', 'subclass/subB')
                            and not case.get('all_entries')):
             table[k] = list(v)
@@ -217,7 +217,7 @@ def h_run_mapping_reduced(ctx, case):
     if kind in (0, 1):
         lv = ['class', 'subclass'][kind]
         cfg1['drop_level'] = lv
-        red = ST.tree_data(True, drop=lv)
+        red = ST.tree_data(True, drop=lv, slash=case.get('slash', False))
         cfg2['precomputed_stats'] = {'path': inp.stats_for(red, f'no_{lv}')}
         pruned = {k: v for k, v in table.items()
                   if not k.startswith(lv + '/')}
@@ -233,7 +233,7 @@ def h_run_mapping_reduced(ctx, case):
             ctx.choice('drop_level_given_with_flatten', 4)]
         if also is not None:
             cfg1['drop_level'] = also
-        red = ST.tree_data(True, flat=True)
+        red = ST.tree_data(True, flat=True, slash=case.get('slash', False))
         cfg2['precomputed_stats'] = {'path': inp.stats_for(red, 'flat')}
         union = sorted({g for v in table.values() for g in v})
         cfg2['query_markers'] = {'serialized_lookup':
@@ -294,7 +294,7 @@ HARNESSES = [
             outside='the _run_mapping sequence itself (mapping-stage '
                     'harness)', expect_reach=['mapped twice'], split=48),
     Harness('run_mapping_reduced_taxonomy', h_run_mapping_reduced,
-            setup=_sc_setup, cases=[{}],
+            setup=_sc_setup, cases=[{}, {'slash': True}],
             thorough_cases=[{'all_entries': True},
                             {'min_markers': 1, 'factor': 1.0},
                             {'min_markers': 3}],
